@@ -778,7 +778,8 @@ def _velocity_update_numeric(mj, m, d, delta, skew=None, tree_qvel=None, P=None)
     implicitfast: D = C's qDeriv as used by mj_implicit (lower triangle on M's sparsity pattern, mirrored);
     Euler: D = -diag(dof_damping) when the C engine integrates joint damping implicitly (neither eulerdamp nor damper disabled),
     else 0. Returns an object with qpos/qvel/act/time, or None when the formula with delta = 0 does not reproduce the C
-    integrator itself to 1e-9 (the formula is only trusted after that validation). `skew` (optional): a modelled difference
+    integrator itself to 1e-9 (the formula is only trusted after that validation; for the undamped Euler branch, which uses
+    the solver's qacc without a linear solve, the validation is done on C's damped branch instead - see below). `skew` (optional): a modelled difference
     between the wheel's and the tree's D; it is added only when the tree build's next velocity `tree_qvel` differs from the
     wheel's and the formula with `skew` reproduces it to 1e-7 - the counterfactual is then about the tree's engine."""
     import types
@@ -801,7 +802,29 @@ def _velocity_update_numeric(mj, m, d, delta, skew=None, tree_qvel=None, P=None)
 
     def nxt(dl):
         return np.array(d.qvel) + h * np.linalg.solve(M - h * (Dsym + dl), f)
-    if _relerr(nxt(0.0), d2.qvel) > 1e-9:
+    validated = _relerr(nxt(0.0), d2.qvel) <= 1e-9
+    via_damped_branch = False
+    if not validated and int(m.opt.integrator) == int(mj.mjtIntegrator.mjINT_EULER) and not damped \
+            and np.any(np.array(m.dof_damping) > 0):
+        # C's UNDAMPED Euler branch performs no linear solve: it advances with the solver's qacc itself, so the formula with
+        # delta = 0 differs from it by h*(M^-1 (qfrc_smooth + qfrc_constraint) - qacc), the residual of C's constraint solver
+        # (CG far from tolerance-exact at large |qacc|), which says nothing about the formula. The formula is then validated,
+        # at the same 1e-9, on the branch of the C integrator that DOES solve (M + h*diag(damping)) x = qfrc_smooth +
+        # qfrc_constraint: mj_Euler on the same forward data with the eulerdamp/damper flags cleared for that call only; and
+        # the undamped branch must be exactly qvel + h*qacc.
+        import copy
+        md = copy.copy(m)
+        md.opt.disableflags = int(m.opt.disableflags) & ~int(mj.mjtDisableBit.mjDSBL_EULERDAMP) & ~int(mj.mjtDisableBit.mjDSBL_DAMPER)
+        d3 = mj.MjData(m)
+        mj.mj_copyData(d3, m, d)
+        mj.mj_Euler(md, d3)
+        v_damped = np.array(d.qvel) + h * np.linalg.solve(M + h * np.diag(np.array(m.dof_damping, float)), f)
+        validated = _relerr(v_damped, d3.qvel) <= 1e-9 and _relerr(v_damped, d2.qvel) > 1e-9 \
+            and _relerr(np.array(d.qvel) + h * np.array(d.qacc), d2.qvel) <= 1e-12
+        via_damped_branch = validated
+        if validated and P is not None:
+            P.count("counterfactual_euler_formula_validated_on_damped_branch_of_C_integrator")
+    if not validated:
         return None
     if skew is not None and tree_qvel is not None and np.any(skew != 0) and _relerr(np.asarray(tree_qvel, float), d2.qvel) > 1e-9:
         # known wheel-vs-tree skew in qDeriv (see _known_causes): use the TREE's update, reconstructed as the wheel's formula
@@ -812,7 +835,8 @@ def _velocity_update_numeric(mj, m, d, delta, skew=None, tree_qvel=None, P=None)
                 P.count("counterfactual_on_tree_update_reconstructed_from_wheel_plus_validated_skew")
         elif P is not None:
             P.count("counterfactual_skew_term_not_validated_by_tree")
-    v = nxt(delta)
+    # formula validated on the damped branch only: with nothing added, the update IS the C integrator's own (undamped) one
+    v = np.array(d2.qvel) if (via_damped_branch and not np.any(np.asarray(delta) != 0)) else nxt(delta)
     q = np.array(d.qpos)
     mj.mj_integratePos(m, q, v, h)
     return types.SimpleNamespace(qpos=q, qvel=v, act=np.array(d2.act), time=float(d2.time))
